@@ -14,6 +14,7 @@ require (
 	github.com/btcsuite/btcwallet/walletdb v1.6.0
 	github.com/lightninglabs/neutrino v0.16.2
 	github.com/lightninglabs/neutrino/cache v1.1.4
+	go.etcd.io/bbolt v1.3.11
 )
 
 require (
@@ -36,7 +37,6 @@ require (
 	github.com/pmezard/go-difflib v1.0.0 // indirect
 	github.com/stretchr/objx v0.5.2 // indirect
 	github.com/stretchr/testify v1.10.0 // indirect
-	go.etcd.io/bbolt v1.3.11 // indirect
 	golang.org/x/crypto v0.41.0 // indirect
 	golang.org/x/exp v0.0.0-20250811191247-51f88131bc50 // indirect
 	golang.org/x/sync v0.16.0 // indirect
